@@ -26,7 +26,8 @@ mv $wt/$pkgdir/zz_seed_demo_test.go /tmp/zz_seed_demo_$name.go
 go test -vet=off -count=1 ./cmd/rdpgw/... ./cmd/auth/ntlm/ ./cmd/auth/database/ >/tmp/sc_suite_$name.log 2>&1; rc_suite=$?
 mv /tmp/zz_seed_demo_$name.go $wt/$pkgdir/zz_seed_demo_test.go
 go test -vet=off -count=1 -run "$run" ./$pkgdir/ >/tmp/sc_demo_$name.log 2>&1; rc_with=$?
-cd /verif
+VR=${VERIF_ROOT:-/verif}
+cd $VR
 git -C /repo worktree remove --force $wt
 # run the check on /repo with the change applied
 git -C /repo apply $dst/patch.diff
